@@ -410,6 +410,28 @@ let handle (toks : string list) =
         | _ -> "unknown-fn") with Failure x -> "EXC:" ^ x | Invalid_argument x -> "EXC:" ^ x) in
     check "mirror" ("PO." ^ fn) (String.equal exp got)
       (fun () -> Printf.sprintf "args=%s model=%s impl=%s" (String.concat " " args) (String.sub exp 0 (min 300 (String.length exp))) (String.sub got 0 (min 300 (String.length got))))
+  (* PU fn args = result : mirror of Proof.Update / Proof.Undo (Model/ProofUpdate.v)
+     Update targets proof cachedHashes addHashes blockTargets remembers toDestroy prevNumLeaves newDel newAdd
+     Undo   targets proof numAdds numLeaves dels delHashes cachedHashes toDestroy blockTargets blockProof
+     result: "ok <returned hashes> <Targets after> <Proof after>" or "err" *)
+  | "PU" :: fn :: rest ->
+    let rec split acc = function
+      | "=" :: r -> (List.rev acc, r) | x :: r -> split (x :: acc) r | [] -> (List.rev acc, []) in
+    let (args, res) = split [] rest in
+    let got = String.concat " " res in
+    let a i = List.nth args i in
+    let show = function
+      | Some ((h, t), p) -> "ok " ^ str_hs h ^ " " ^ str_ns t ^ " " ^ str_hs p | None -> "err" in
+    let exp = (try (match fn with
+        | "Update" ->
+          show (proof_update ops (ns_of (a 0)) (hashes_of (a 1)) (hashes_of (a 2)) (hashes_of (a 3)) (ns_of (a 4)) (ns_of (a 5))
+                  { u_to_destroy = ns_of (a 6); u_prev = n_of_string (a 7); u_del = pairs_of (a 8); u_add = pairs_of (a 9) })
+        | "Undo" ->
+          show (proof_undo ops (ns_of (a 0)) (hashes_of (a 1)) (n_of_string (a 2)) (n_of_string (a 3)) (ns_of (a 4))
+                  (hashes_of (a 5)) (hashes_of (a 6)) (ns_of (a 7)) (ns_of (a 8)) (hashes_of (a 9)))
+        | _ -> "unknown-fn") with Failure x -> "EXC:" ^ x | Invalid_argument x -> "EXC:" ^ x) in
+    check "mirror" ("PU." ^ fn) (String.equal exp got)
+      (fun () -> Printf.sprintf "args=%s model=%s impl=%s" (String.concat " " args) exp got)
   | ["EQ"; label; a; b] ->
     check "prop" ("EQ." ^ label) (String.equal a b) (fun () -> Printf.sprintf "a=%s b=%s" a b)
   | t :: _ -> fail "harness" t "unknown event"
